@@ -33,7 +33,7 @@ func runC14(c *Ctx) {
 	c.Rule("C14-R1", "per-key lock dominates every send; deferred unlock; key covers distinguishing parameters; partitionLocker protocol", 30)
 	c.Rule("C14-R2", "pool-only execution and bounded worker count", 14)
 	c.Rule("C14-R3", "cache protocol in processJob; CacheKey coverage", 20)
-	c.Rule("C14-R4", "guarded fields only touched under their mutex", 10)
+	c.Rule("C14-R4", "guarded fields only touched under their mutex", 8)
 
 	prom := p.Pkg("internal/promapi")
 	if prom == nil {
@@ -149,27 +149,75 @@ func runC14(c *Ctx) {
 	}
 	// partitionLocker protocol
 	if lk := c.MustFunc("C14-R1", "internal/promapi.partitionLocker.lock"); lk != nil {
-		var loop *ast.ForStmt
+		// "the key is absent": locked(id) is false, or the comma-ok lookup `_, held := p.s[id]` said no
+		fl0 := p.NewFlow(lk)
+		heldVars := map[types.Object]bool{}
 		ast.Inspect(lk.Decl.Body, func(n ast.Node) bool {
-			if f, ok := n.(*ast.ForStmt); ok && f.Cond != nil {
-				if call, ok := ast.Unparen(f.Cond).(*ast.CallExpr); ok && isCallTo(info, call, "internal/promapi.partitionLocker.locked") {
-					loop = f
+			if as, ok := n.(*ast.AssignStmt); ok && len(as.Lhs) == 2 && len(as.Rhs) == 1 {
+				if ix, isIx := ast.Unparen(as.Rhs[0]).(*ast.IndexExpr); isIx && fieldSel(info, ix.X, "internal/promapi.partitionLocker", "s") {
+					if o := objOf(info, as.Lhs[1]); o != nil {
+						heldVars[o] = true
+					}
 				}
 			}
 			return true
 		})
-		waits := false
-		if loop != nil {
-			ast.Inspect(loop.Body, func(n ast.Node) bool {
-				if call, ok := n.(*ast.CallExpr); ok {
-					if fn := Callee(info, call); fn != nil && fn.Pkg() != nil && fn.Pkg().Path() == "sync" && fn.Name() == "Wait" {
-						waits = true
-					}
+		absent := func(a Atom) bool {
+			if a.Tag != nil {
+				return false
+			}
+			e, t := ast.Unparen(a.E), a.Truth
+			for {
+				u, ok := e.(*ast.UnaryExpr)
+				if !ok || u.Op != token.NOT {
+					break
 				}
-				return true
-			})
+				e, t = ast.Unparen(u.X), !t
+			}
+			if call, ok := e.(*ast.CallExpr); ok && isCallTo(info, call, "internal/promapi.partitionLocker.locked") {
+				return !t
+			}
+			if o := objOf(info, e); o != nil && heldVars[o] {
+				return !t
+			}
+			return false
 		}
-		c.Check(loop != nil && waits, "C14-R1", "partitionLocker.lock:waits in a loop on locked(id)", lk.Decl.Pos(), "for locked(id) { Wait() }", "the wait on a held key is not a `for p.locked(id) { p.c.Wait() }` loop (a spurious or broadcast wake-up lets two holders in)")
+		claims := fl0.Find(func(n ast.Node) bool {
+			as, ok := n.(*ast.AssignStmt)
+			if !ok || len(as.Lhs) != 1 {
+				return false
+			}
+			ix, ok := as.Lhs[0].(*ast.IndexExpr)
+			return ok && fieldSel(info, ix.X, "internal/promapi.partitionLocker", "s")
+		})
+		waitSites := fl0.Find(func(n ast.Node) bool {
+			call, ok := n.(*ast.CallExpr)
+			if !ok {
+				return false
+			}
+			fn := Callee(info, call)
+			return fn != nil && fn.Pkg() != nil && fn.Pkg().Path() == "sync" && fn.Name() == "Wait"
+		})
+		// after every wake-up the key is looked up again before it is claimed: no path from a Wait to
+		// the claim without crossing an "absent" edge (a plain `if` around Wait has such a path)
+		okLoop := len(waitSites) >= 1 && len(claims) >= 1
+		for _, w := range waitSites {
+			for _, cl := range claims {
+				target := cl.Site
+				reach, _ := fl0.Reach(w.Site.After(), func(x Site) bool { return x == target }, false, PathQ{Cut: func(atoms []Atom) bool {
+					for _, a := range atoms {
+						if absent(a) {
+							return true
+						}
+					}
+					return false
+				}})
+				if reach {
+					okLoop = false
+				}
+			}
+		}
+		c.Check(okLoop, "C14-R1", "partitionLocker.lock:waits in a loop on locked(id)", lk.Decl.Pos(), "every wake-up re-checks the key", "the wait on a held key is not a `for p.locked(id) { p.c.Wait() }` loop (a spurious or broadcast wake-up lets two holders in)")
 		// the claim store follows the loop
 		fl := p.NewFlow(lk)
 		stores := fl.Find(func(n ast.Node) bool {
@@ -182,10 +230,7 @@ func runC14(c *Ctx) {
 		})
 		c.Check(len(stores) == 1, "C14-R1", "partitionLocker.lock:claims the key once", lk.Decl.Pos(), "one store", itoa(len(stores))+" stores to the key set")
 		for _, s := range stores {
-			dom := fl.Dominated(s.Site, nil, func(a Atom) bool {
-				call, ok := ast.Unparen(a.E).(*ast.CallExpr)
-				return ok && !a.Truth && isCallTo(info, call, "internal/promapi.partitionLocker.locked")
-			})
+			dom := fl.Dominated(s.Site, nil, absent)
 			c.Check(dom, "C14-R1", "partitionLocker.lock:claim only after locked(id) is false", s.Inner.Pos(), "dominated by the loop exit", "the key is claimed on a path where locked(id) was not observed false")
 		}
 	}
